@@ -66,6 +66,21 @@ def _reader_check(fn):
             rec = True
     if not rec:
         problems.append('does not recurse into children through %s() (grand-children would be lost)' % fn.name)
+    # the recursion must happen for EVERY child: not under a condition inside the loop (a child whose own stream is
+    # empty may still hold written grand-children)
+    for loop in walk_no_nested(fn):
+        if not isinstance(loop, ast.For):
+            continue
+        for inner in ast.walk(loop):
+            if isinstance(inner, (ast.If, ast.IfExp, ast.Continue, ast.Break)) and inner is not loop:
+                guarded = isinstance(inner, (ast.Continue, ast.Break)) or any(
+                    isinstance(c, ast.Call) and isinstance(c.func, ast.Attribute) and c.func.attr == fn.name for c in ast.walk(inner))
+                if guarded and any(isinstance(c, ast.Call) and isinstance(c.func, ast.Attribute) and c.func.attr == fn.name for c in ast.walk(loop)):
+                    problems.append('visits a child only conditionally (line %d): a child with an empty own stream can still contain written descendants' % inner.lineno)
+                    break
+    for comp in walk_no_nested(fn):
+        if isinstance(comp, ast.comprehension) and comp.ifs and any(e[3] is x for e in ev if e[2] == CHILDREN for x in ast.walk(comp.iter)):
+            problems.append('filters children in a comprehension condition')
     # every for-loop over children iterates all of them (no slicing / reversed)
     for n in walk_no_nested(fn):
         it = None
